@@ -161,6 +161,7 @@ static void roundtrip_case(long kase)
 	/* a fifth of the cases raise the blackbox's own line limit and log records longer than the default 512 bytes: the space
 	 * reserved per record has to follow the limit, and the printer has to reproduce such records as well */
 	long_limit = vp_chance(&r, 1, 5) ? 600 + (int)vp_u(&r, 3400) : 0;
+	if (long_limit > size / 3) long_limit = size / 3 >= 600 ? size / 3 : 0;   /* a record has to fit the ring several times over */
 	if (long_limit) { n_longline_cases++; if (qb_log_ctl(QB_LOG_BLACKBOX, QB_LOG_CONF_MAX_LINE_LEN, long_limit) != 0) long_limit = 0; }
 	int rc = qb_log_ctl(QB_LOG_BLACKBOX, QB_LOG_CONF_ENABLED, QB_TRUE);
 	if (rc != 0) { vp_violation("bb:enable-failed", "size %d rc %d", size, rc); qb_log_fini(); return; }
